@@ -56,6 +56,10 @@ CHECKS = {
     technique='TLA+ NsForward.tla: forwarding rule evaluated by TLC on the complete lattice of helper calls executed on the real namespace classes',
     text='All 4 namespace classes x helper methods x all subsets of optional parameters x {positional, keyword} x {truthy, falsy-but-meaningful values}: the real helper is called on a namespace bound to a recording stub carrying the real target signatures (read from the working tree); TLC computes the expected explicit call from the rule in NsForward.tla and checks coverage of the lattice.',
     ref='4/C17', note='Trusted: TLC, inspect.signature. Defaults of omitted optionals other than namespace are outside the claim, as the property says.'),
+ 'C19': dict(
+    technique='TLA+ SimpleClient.tla (threads with program counters at the Event/buffer operations) model-checked by TLC + exhaustive schedule exploration of the real SimpleClient under a baton scheduler, every step re-executed by TLC (SimpleClientGraph.tla)',
+    text='The instance\'s connected_event, input_event and input_buffer are replaced by objects that park the thread before each operation; real threads, one runs at a time; every schedule of {application receive()/emit() calls, handler thread arrivals, connection drop / reconnect / final end / give-up} is explored by state (a few hundred abstract states per configuration) and each step is validated against the spec (whole projected state: pcs, buffer, flags, results). Invariants: returned ++ buffer = arrived (order, exactly once, nothing overtaken), DisconnectedError only after the final end, emit waits out a reconnection, no error while an event is available (known finding D9 modelled; the design without it is model-checked).',
+    ref='4/C19', note='Trusted: TLC, FakeEio, the baton scheduler (pre-emption at Event/buffer operations, the granularity the property names). AsyncSimpleClient is not yet explored (see DESIGN.md).'),
  'C16': dict(
     technique='TLA+ SioServer.tla (sessions config) + exhaustive graph validation with the real engine.io session store',
     text='C16_SessionIsolation: get_session/session() return the declared contents for that client+namespace, never a foreign value; known finding D6 (session survives a namespace-level disconnect) is modelled exactly, the design without it is model-checked.',
